@@ -46,7 +46,7 @@ MANIFEST = dict(
     technique="Lean 4 proof (tree induction, mutual induction over generation histories, decide +kernel over regenerated tables) "
               "+ differential correspondence (compiled model driver) + directory oracle",
 )
-MODULES = ["ShroudVerif.Props.C15"]
+MODULES = ["ShroudVerif.Props.C15", "ShroudVerif.Props.C15Groups"]
 THEOREMS = {
     "ShroudVerif.Props.C15": [
         "Shroud.Flags.promote_is_or_of_subtree",
@@ -262,6 +262,10 @@ def run(ctx):
         # ------------------------------------------------ (D) flag correspondence
         from tools import flagcorr
         flagcorr.run(ctx, r, ok, thorough)
+
+        # ------------------------------------------------ consumer loops: overload sets with per-member options
+        from tools import flaggroups
+        flaggroups.run(ctx, r, ok, thorough, work, run_config, text_of)
 
         # ------------------------------------------------ oracle
         combos = [f for f in itertools.product((0, 1), repeat=4) if not (f[1] and not f[0])]
